@@ -764,3 +764,55 @@ def c11(ctx):
         floors=dict(cases=(n("cases"), 5000), classes=(agg.d("c11_case_class"), 25),
                     detected=(n("outcome_error_status_reported") + n("outcome_open_failed"), 1000)),
         assumptions=["single alteration per case; region map of a table from the independent decoder (refcodec)"])
+
+
+# ---------------------------------------------------------------------------
+# C19: repair
+
+HARNESSES["repairmon"] = (["repairmon.c", "model.c", "dbh.c", "vh.c", "iomon.c", "refcodec.c"], build.WRAP_IO)
+HARNESS_FLAVOURS["repairmon"] = ("rel", "asan")
+
+
+@register("C19")
+def c19(ctx):
+    """Repair recovers all surviving data (histories with mis-ordered file numbers -> metadata loss -> repair -> open)."""
+    if ctx.replay:
+        return do_replay(ctx)
+    jobs = []
+    if ctx.quick:
+        plan = [("rel", k * 24, 24, 800) for k in range(16)] + [("asan", 5000 + k * 3, 3, 300) for k in range(4)]
+    else:
+        plan = [("rel", k * 250, 250, 800) for k in range(16)] + [("asan", 50000 + k * 30, 30, 400) for k in range(16)]
+    for flavour, first, count, steps in plan:
+        d = os.path.join(ctx.scratch, "rep-%s-%d" % (flavour, first))
+        env = {"ASAN_OPTIONS": SAN_ENV["asan"]["ASAN_OPTIONS"] + ":quarantine_size_mb=16"} if flavour == "asan" else None
+        jobs.append(hjob("repairmon", flavour, ["--seed", ctx.seed, "--first", first, "--count", count, "--steps-max", steps,
+                                                 "--dir", d], "%s/%d" % (flavour, first), timeout=3000, env=env))
+    agg = Agg().add(runner.run_jobs(jobs))
+    n = agg.n
+    variants = ["del-current", "del-manifest", "del-both", "trunc-manifest", "flip-manifest", "current-missing-file", "current-garbage"]
+    extras = dict(
+        cases=n("cases"), repairs=n("repairs"),
+        variants={k: v for k, v in agg.counts.items() if k.startswith("variant_")},
+        extra_losses={k: v for k, v in agg.counts.items() if k.startswith("extra_")},
+        tables_at_repair=n("tables_at_repair"), logs_at_repair=n("logs_at_repair"),
+        wal_records_converted=n("wal_records_converted"), disk_entries_decoded_independently=n("disk_entries_decoded"),
+        keys_checked=n("keys_checked"), gets=n("gets"), scans=n("scans"), phase_checks=n("phase_checks"),
+        followups=n("followups"), followup_writes=n("followup_writes"), new_files_checked=n("new_files_checked"),
+        cases_with_a_key_in_several_tables=n("cases_multi_table_key"), cases_with_live_wal=n("cases_wal_nonempty"),
+        cases_where_file_numbers_contradict_sequence_order=n("cases_misordered"),
+        cases_with_known_finding_shape_observed=n("cases_f4_observed"),
+        templates=dict(f4=n("template_f4"), tombstone=n("template_tomb"), snapshot_pinned=n("template_snap")))
+    return runner.finish(
+        "C19", "exploration", ctx.tier, ctx.seed, ctx.t0, agg,
+        rule="histmon-style histories (all comparators, manual per-level compactions so that file numbering does not "
+             "follow data age, snapshot-pinned versions, tombstones, live WAL or flushed) -> one of 7 metadata-loss "
+             "variants (+ optional loss/destruction of one data file) -> ldb_repair -> ldb_open; expectation = newest "
+             "version per key by sequence number decoded independently from the surviving files; gets, forward/backward "
+             "scans, follow-up writes, reopen, file/sequence numbers; distinct = (variant, layout before repair, "
+             "misordered?, wal?) states",
+        evaluations=n("cases"), distinct_nontrivial=agg.d("c19_state"), extras=extras,
+        floors=dict(cases=(n("cases"), 100), misordered=(n("cases_misordered"), 10),
+                    multi_table_and_wal=(n("cases_multi_table_and_wal"), 10), followups=(n("followups"), 50)),
+        assumptions=["expected contents are derived with harness/refcodec.c from the files that survive",
+                     "repair is given the same comparator/options the database was created with"])
